@@ -1434,6 +1434,8 @@ func runC15(c *Ctx) {
 				break
 			}
 		}
+		// literal-shrinking / -growing classes (own original: harness/c15_lit.go)
+		pairs = append(pairs, c15LiteralPairs(c, p, newDir)...)
 		// the tolerance class
 		q := p.clone()
 		if desc, inTop, ok := c15UlpEdit(c.Rng, q); ok {
@@ -1554,6 +1556,23 @@ func runC15(c *Ctx) {
 		}
 		done++
 		c15EndToEnd(c, rt, pr, done)
+	}
+	// creation interrupted after each prefix of the metadata files, then a semantic edit (harness/c15_crash.go)
+	crashBudget := 8
+	if c.Thorough {
+		crashBudget = 60
+	}
+	crashed := 0
+	for _, i := range order {
+		if crashed >= crashBudget {
+			break
+		}
+		pr := pairs[i]
+		if pr.inTop || !pr.semantic || pr.edit == "float-ulp" || pr.edit == "struct-definition" || pr.pa == nil {
+			continue
+		}
+		crashed++
+		c15CrashDuringInvoke(c, rt, pr, crashed)
 	}
 	// the invocation text itself: a cosmetic change there is refused by the byte comparison
 	for _, pr := range pairs {
